@@ -182,9 +182,14 @@ func c16Routing(intercept string, L int) *explore.Scenario {
 
 // c16RPC: real RPC workloads from two clients through the proxy.
 func c16RPC(load string, preAttach bool, bound int) *explore.Scenario {
-	fam := "C16/rpc"
+	return c16RPCFam("C16", load, preAttach, bound)
+}
+
+// c16RPCFam: the same workloads reporting under another property (C01/C02 over the proxy+demux topology).
+func c16RPCFam(prop, load string, preAttach bool, bound int) *explore.Scenario {
+	fam := prop + "/rpc"
 	return &explore.Scenario{
-		Name: fmt.Sprintf("C16/rpc/%s/preattach=%v", load, preAttach), Family: fam, Prop: "C16", Bound: bound,
+		Name: fmt.Sprintf("%s/rpc-via-proxy-demux/%s/preattach=%v", prop, load, preAttach), Family: fam, Prop: prop, Bound: bound,
 		Run: func() {
 			w := env.NewWorld()
 			env.MsgSize = 0
